@@ -132,12 +132,12 @@ Definition print_top (u : userset) (rs : list relation_ref) : option (str * nat)
       | _, _ => None
       end
   | UUnion cs =>
-      match print_children (prioritize cs) rs with
+      match print_children cs rs with
       | Some (l, n) => Some (join (lit " or ") l, n)
       | None => None
       end
   | UInter cs =>
-      match print_children (prioritize cs) rs with
+      match print_children cs rs with
       | Some (l, n) => Some (join (lit " and ") l, n)
       | None => None
       end
